@@ -507,6 +507,38 @@ m = g(r.sub, p.sub) && r.obj == p.obj && r.act == p.act
 			c.Count("hostile-multitype-load")
 		}
 	}
+	// matching functions run while the POLICY IS LOADED (role links are built outside enforce's
+	// recover): a matcher with keyMatch(r.dom, p.dom) registers KeyMatch as domain matching function
+	// automatically; empty, pattern and odd domains / names in the grouping rules must not crash it
+	{
+		text := "[request_definition]\nr = sub, dom, obj, act\n[policy_definition]\np = sub, dom, obj, act\n[role_definition]\ng = _, _, _\n[policy_effect]\ne = some(where (p.eft == allow))\n[matchers]\nm = g(r.sub, p.sub, r.dom) && keyMatch(r.dom, p.dom) && r.obj == p.obj && r.act == p.act\n"
+		doms := []string{"", "tenant*", "*", "t1", "/", "a*b", "**", " "}
+		for i := 0; i < len(doms); i++ {
+			for j := 0; j < len(doms); j++ {
+				pol := fmt.Sprintf("p, admin, %s, data1, read\ng, bob, admin, %s\ng, alice, admin, %s\ng, , admin, %s\n", doms[i], doms[i], doms[j], doms[j])
+				if s := c03Guarded(func() {
+					mm, err := model.NewModelFromString(text)
+					if err != nil {
+						return
+					}
+					e, err := casbin.NewEnforcer(mm, stringadapter.NewAdapter(pol))
+					if err == nil && e != nil {
+						for _, d := range doms {
+							ok, err := e.Enforce("alice", d, "data1", "read")
+							if err != nil && ok {
+								panic("error with decision true")
+							}
+						}
+						_, _ = e.AddGroupingPolicy("carol", "admin", doms[(i+j)%len(doms)])
+						_ = e.LoadPolicy()
+					}
+				}); s != "" {
+					c.Direct("c03.domload", "loading grouping rules under an automatically registered domain matching function: "+s, pol)
+				}
+				c.Count("hostile-domain-load")
+			}
+		}
+	}
 	// the self-referential eval rule (F29 repaired: must be an error, not a dead process)
 	{
 		text := "[request_definition]\nr = sub, obj, act\n[policy_definition]\np = sub_rule, obj, act\n[policy_effect]\ne = some(where (p.eft == allow))\n[matchers]\nm = eval(p.sub_rule) && r.obj == p.obj && r.act == p.act\n"
